@@ -114,7 +114,7 @@ def clock_in_domain(rnd, layout):
     if LATE_CLOCKS and rnd.chance(0.12):
         # beyond the domain of the theorems (2038-2106): Timestamp is a uint32, differences of times
         # that lie within one retention of each other still fit an int32; the model mirrors the wraps
-        lo2, hi2 = TMAX, 2 ** 32 - 4 * R - 8
+        lo2, hi2 = TMAX, 2 ** 32 - 4 * R - 64
         return rnd.pick([lo2 + rnd.randint(0, 50), hi2 - rnd.randint(0, 50), rnd.randint(lo2, hi2), 2400000000 + rnd.randint(0, 10 ** 8)])
     r = rnd.random()
     if r < 0.5:
@@ -142,7 +142,7 @@ def advance(rnd, now, layout, room=None):
         d = rnd.pick(retentions(layout)) + rnd.randint(-1, 1)
     else:
         d = rnd.randint(R, 2 * R)
-    hi = TMAX - 2 * R - 1 if now < TMAX else 2 ** 32 - 2 * R - 8      # a late clock stays late
+    hi = TMAX - 2 * R - 1 if now < TMAX else 2 ** 32 - 3 * R - 64      # a late clock stays late (and below 2^32)
     return min(now + max(d, 0), hi)
 
 
@@ -179,7 +179,7 @@ def windows(rnd, layout, a, now, count=3):
         fr, un = max(fr, 0), max(un, 0)
         if rnd.chance(0.04):
             fr, un = un + 1, fr
-        out.append((fr, un))
+        out.append((min(fr, 2 ** 32 - 1), min(un, 2 ** 32 - 1)))        # Timestamp is a uint32
     return out
 
 
